@@ -4,8 +4,11 @@ from props import common
 
 ID = "C10"
 LEVEL = "proof"
+LEVEL_TEXT = 'Lean 4 theorems: any structural Mismatch (inductive: type, parameter, layout, nested child, shared sparse bin, template) makes + raise; + succeeds iff compat; += raises whenever + raises; a root-level rejected += leaves the left operand untouched. The nested-mismatch += case is false of the code (kernel-checked negative witness iadd_nested_mismatch_mutates) and is a listed known finding.'
+LEVEL_NOTE = "Partial for += with a mismatch below the root (known finding C10-nested-iadd). compat's agreement with the implementation's raise/no-raise decision rests on the correspondence run over single-parameter perturbations at every depth."
+TECHNIQUE = 'Lean 4 proof (mismatch => rejection) + correspondence on perturbed pairs + oracle; negative witness for the known finding'
 LEAN_MODULE = "Hg.Props.C10"
-THEOREMS = []
+THEOREMS = ["Hg.C10.mismatch_rejected", "Hg.C10.add_some_iff_compat", "Hg.C10.add_none_of_typeName", "Hg.C10.iadd_rejects", "Hg.C10.iadd_rejects_unchanged_partial", "Hg.C10.iadd_nested_mismatch_mutates"]
 CASES = {"quick": 300, "thorough": 10000}
 RULE = ("random tree and a copy differing in exactly one structural parameter (bin count/range, width/origin, centre, threshold "
         "incl. an extra or missing trailing one, Bag range, label set, collection size) or one child type at a random depth; "
